@@ -4,6 +4,7 @@ package go9p
 // symbolic engine can be re-run against the real build (go test -overlay).
 
 import (
+	"sync"
 	"encoding/json"
 	"fmt"
 	"os"
@@ -194,3 +195,10 @@ func vxAny(c ...bool) bool {
 	}
 	return false
 }
+
+var vxMu sync.Mutex
+
+// vxLock/vxUnlock protect harness bookkeeping in native replays (the engine runs harness code atomically
+// between synchronisation points, so they are no-ops there).
+func vxLock()   { vxMu.Lock() }
+func vxUnlock() { vxMu.Unlock() }
